@@ -87,7 +87,8 @@ let table : (string * (sexp -> sexp)) list = [
   ("C17", run_C17);
   ("C19", run_C19F);
   ("C11", run_C11);
-  ("C13", run_C13);
+  ("C13", run_C13G);
+  ("C13P", run_C13);
   ("C14", run_C14 float_share);
   ("C20", run_C20);
 ]
